@@ -11,7 +11,7 @@ RULE = ("random operation histories (seeded) over int/str/tuple/mixed elements p
         "two blocks of which at least one is not a singleton, or >=3 pops of which two tie; distinct = "
         "distinct (element kind, op sequence) hash")
 REQUIRED = {"uf_model": 2000, "uf_invariant": 2000, "pq_model": 2000, "pq_invariant": 2000}
-CASE_TIMEOUT = {"quick": 60.0, "thorough": 600.0}
+CASE_TIMEOUT = {"quick": 30.0, "thorough": 600.0}
 ASSUMPTIONS = ["elements are hashable and immutable (ints, strings, tuples)", "priorities are ints/floats incl. +-inf, never NaN",
                "uf[i] = x (documented index assignment) is not part of the alphabet"]
 
